@@ -49,10 +49,12 @@ static std::string shape(const std::vector<Entry> &es)
 static const char *nz(const char *p) { return p ? p : "(null)"; }
 
 // checks one block that lives at `meta` (n bytes long); `es` is what it was written from
-static void check_block(const char *meta, size_t n, const std::vector<Entry> &es, const std::string &cid, const std::string &sh)
+// direct: the container is built from the metadata pointer itself, MetaContainer(port.metadata), as the library's own MIDI table and port
+// checker do, instead of through Port::meta()
+static void check_block_route(const char *meta, size_t n, const std::vector<Entry> &es, const std::string &cid, const std::string &sh, bool direct)
 {
     rtosc::Port port{"x", meta, nullptr, nullptr};
-    const rtosc::Port::MetaContainer mc = port.meta();
+    const rtosc::Port::MetaContainer mc = direct ? rtosc::Port::MetaContainer(port.metadata) : port.meta();
 
     // 1. iteration
     {
@@ -121,14 +123,19 @@ static void check_block(const char *meta, size_t n, const std::vector<Entry> &es
                 vp::violation(std::string("entry|find|") + cls + "|" + sh, cid, show_entries(es) + ": find('" + p + "') -> title '" + nz(f.title) + "' value " + (f.value ? "'" + std::string(f.value) + "'" : "null"));
         }
     }
-    // 3. length
-    {
+    // 3. length (of what Port::meta() hands out)
+    if(!direct) {
         size_t len = mc.length();
         vp::transition();
         if(len != n)
             vp::violation("length|length()|" + sh, cid, show_entries(es) + ": length() = " + std::to_string(len) + ", the block has " + std::to_string(n) + " bytes including its terminator");
     }
     vp::outcome("n=" + std::to_string(es.size()) + ":" + sh);
+}
+static void check_block(const char *meta, size_t n, const std::vector<Entry> &es, const std::string &cid, const std::string &sh)
+{
+    check_block_route(meta, n, es, cid, sh, false);
+    check_block_route(meta, n, es, cid, sh + "|direct-constructor", true);
 }
 
 static void generated_case(const std::vector<Entry> &es, const std::string &cid)
@@ -194,6 +201,8 @@ static void run_family(const Family &f, int n)
 }
 
 // ---- blocks produced by the real macros ----------------------------------------------------------------
+#define VP_NUM_VOICES 16
+#define VP_FLAG_NAME experimental
 struct Obj { unsigned char pc; int pi; float pf; bool pt; int po; int arr[4]; char str[8]; void act() {} };
 #define rObject Obj
 static void nop(const char *, rtosc::RtData &) {}
@@ -210,6 +219,7 @@ static const rtosc::Ports macro_ports = {
     {"plain2", rProp(a) rProp(a) rMap(a, 1) rMap(b, :x=y:) rProp(c), nullptr, nop},
     {"plain3", rDepends(a, b) rDoc("") rMap(empty, ) rDefaultId(id) rNoDefaults rCentered rOpt(7, seven) rBlobType(f), nullptr, nop},
     {"plain4", rMap(min, 0) rMap(max, 127) rMap(scale, linear) rDoc("x"), nullptr, nop},
+    {"plain5", rMap(max, VP_NUM_VOICES) rProp(VP_FLAG_NAME) rMap(VP_FLAG_NAME, VP_NUM_VOICES), nullptr, nop},   // arguments that are macros: expanded before they are spelled
 };
 #undef rObject
 
@@ -233,6 +243,7 @@ static void macro_blocks()
         P({k_("a"), k_("a"), kv("a", "1"), kv("b", ":x=y:"), k_("c")}),
         P({kv("depends", "a,b,"), kv("documentation", ""), kv("empty", ""), kv("default", "\"id\"S"), k_("no defaults"), k_("centered"), kv("map 7", "seven"), kv("blob type", "f")}),
         P({kv("min", "0"), kv("max", "127"), kv("scale", "linear"), kv("documentation", "x")}),
+        P({kv("max", "16"), k_("experimental"), kv("experimental", "16")}),
     };
     if(want.size() != macro_ports.ports.size()) { fprintf(stderr, "macro table mismatch\n"); exit(3); }
     for(size_t k = 0; k < want.size(); ++k, ++g_top) {
